@@ -603,18 +603,26 @@ def small_stages_correspondence(ctx):
                 with _cl.redirect_stdout(_io.StringIO()):
                     got, err = stage.run_stages([(tm["callback"], cobj, None)], evs)
                 ctx.count("tidmap_cases")
-                ctx.count("tidmap_beyond_table", int(len(cobj.tid_original) > 30))
+                ctx.count("tidmap_beyond_table", int(len({e["tid"] for e in evs if e["ph"] == "X" and "tid" in e
+                                                             and e["args"].get("jobhash") == jf}) > 30))
+                # the context's two lists are compared where the object shows them (they are internals: an implementation that
+                # keeps its table differently is compared on the new tids alone)
+                internals = hasattr(cobj, "tid_original") and hasattr(cobj, "tid_remap")
+                if not internals and not o.startswith("err:"):
+                    o = o.split("|")[0]
+                    ctx.count("tidmap_internals_not_observable")
                 if err is not None:
                     real = {"IndexError": "err:indexerror"}.get(err, "raises " + err)
                 else:
-                    real = (",".join(f"{e['args']['uid']}:{e['tid'] if 'tid' in e else '-'}" for e in got) or "%") + "|" + \
-                        (",".join(map(str, cobj.tid_original)) or "%") + "|" + (",".join(map(str, cobj.tid_remap)) or "%")
+                    real = ",".join(f"{e['args']['uid']}:{e['tid'] if 'tid' in e else '-'}" for e in got) or "%"
+                    if internals:
+                        real += "|" + (",".join(map(str, cobj.tid_original)) or "%") + "|" + (",".join(map(str, cobj.tid_remap)) or "%")
                     # the clause of the statement the stage could break: nothing but the tid changes
                     for a, b_ in zip(evs, got):
                         if {k: v for k, v in a.items() if k != "tid"} != {k: v for k, v in b_.items() if k != "tid"}:
                             ctx.compare("map_tid_to_range changes nothing but the tid", {"events": evs}, a, b_)
                 ctx.compare("Small.mapAll vs real map_tid_to_range + TIDMappingContext: new tids | tid_original | tid_remap",
-                            {"events": evs, "ctx": [len(cobj.tid_remap), cobj.remap_step]}, o, real)
+                            {"events": evs}, o, real)
             elif item[0] == "recomb":
                 evs = item[1]
                 with _cl.redirect_stdout(_io.StringIO()):
